@@ -1,5 +1,6 @@
 import QuiverModel.Core.RefSem.Parse
 import QuiverModel.Core.RefSem.Compile0
+import QuiverModel.Core.RefSem.Compile1
 /-
 qm_c02 — driver for M-RefSem. Requests:
   (eval <program> <fuel>)  →  ok <canonical value> | err <Class> | fuel-out | unspecified <why> | unsupported
@@ -7,6 +8,12 @@ qm_c02 — driver for M-RefSem. Requests:
   (compile0seq <chain>+)   →  ok <instruction>*          (sequence `c₁, c₂, …` of the fragment: + dup, not, jumpif<off>)
       chain ::= (ch term*)    term ::= (i z cidx) | (~) | (t id chain*)
       instructions print as pop, const<i>, pick<k>, tuple<id>, rot<n>
+  (compile1 <chain1>+)     →  ok <instruction>*          (Core/RefSem/Compile1: + locals, bindings, simple matches;
+                                                          compiled with one anonymous slot, the entry parameter)
+  (eval1 <chain1>+)        →  ok <value> <locals>… | stuck   (the meaning function `C1.evalSq` from nil, locals [nil])
+      term1 ::= (i z cidx) | (~) | (t id chain1*) | (v x) | (m pat)
+      pat ::= (pt sub) | (ptup sub*)      sub ::= (b x) | (w) | (l z cidx)
+      values print as i<z> | t(<id>;v,…)
 The evaluation is `QM.RefSem.evalProgram`, the compilation `QM.RefSem.C0.compileCh` — the definitions
 `Theorems/C02.lean` / `Theorems/C02Compile.lean` are about.
 -/
@@ -61,8 +68,87 @@ def showInstr : QM.VM.Instr → String
   | .duplicate => "dup"
   | .not => "not"
   | .jumpIf off => s!"jumpif{off}"
+  | .load k => s!"load{k}"
+  | .store => "store"
+  | .reset n => s!"reset{n}"
+  | .jump off => s!"jump{off}"
+  | .get k => s!"get{k}"
+  | .equal n => s!"equal{n}"
+  | .isType id => s!"istype{id}"
   | _ => "?"
 end C0Glue
+
+namespace C1Glue
+open QM.RefSem.C1
+
+def parseSub : Sx → Option Sub
+  | .list [.atom "b", .atom x] => some (.bind x)
+  | .list [.atom "w"] => some .wild
+  | .list [.atom "l", z, c] =>
+    match z.asInt, c.asNat with
+    | some z, some c => some (.lit z c)
+    | _, _ => none
+  | _ => none
+
+def parseSubs : List Sx → Option (List Sub)
+  | [] => some []
+  | s :: r =>
+    match parseSub s, parseSubs r with
+    | some s, some r => some (s :: r)
+    | _, _ => none
+
+def parsePat : Sx → Option Pat1
+  | .list [.atom "pt", s] => (parseSub s).map Pat1.top
+  | .list (.atom "ptup" :: ss) => (parseSubs ss).map Pat1.tup
+  | _ => none
+
+mutual
+  partial def parseT : Sx → Option T1
+    | .list [.atom "i", z, c] =>
+      match z.asInt, c.asNat with
+      | some z, some c => some (.int z c)
+      | _, _ => none
+    | .list [.atom "~"] => some .ripple
+    | .list [.atom "v", .atom x] => some (.var x)
+    | .list [.atom "m", p] => (parsePat p).map T1.mtch
+    | .list (.atom "t" :: id :: fs) =>
+      match id.asNat, parseFs fs with
+      | some id, some fs => some (.tup id fs)
+      | _, _ => none
+    | _ => none
+  partial def parseCh : Sx → Option Ch1
+    | .list (.atom "ch" :: ts) => parseTs ts
+    | _ => none
+  partial def parseTs : List Sx → Option Ch1
+    | [] => some .nil
+    | t :: r =>
+      match parseT t, parseTs r with
+      | some t, some r => some (.cons t r)
+      | _, _ => none
+  partial def parseFs : List Sx → Option Fs1
+    | [] => some .nil
+    | c :: r =>
+      match parseCh c, parseFs r with
+      | some c, some r => some (.cons c r)
+      | _, _ => none
+end
+
+partial def parseSq : List Sx → Option Sq1
+  | [c] => (parseCh c).map Sq1.last
+  | c :: r =>
+    match parseCh c, parseSq r with
+    | some c, some r => some (.cons c r)
+    | _, _ => none
+  | [] => none
+
+partial def showVal : QM.VM.Val → String
+  | .int z => s!"i{z}"
+  | .tup id fs => s!"t({id};" ++ ",".intercalate (fs.toList.map showVal) ++ ")"
+  | _ => "?"
+
+/-- the entry function's frame: one anonymous slot holding the (nil) parameter -/
+def Γ₀ : List String := [""]
+end C1Glue
 
 def c02Step (_ : Unit) (req : List Sx) : Unit × String :=
   match req with
@@ -80,6 +166,17 @@ def c02Step (_ : Unit) (req : List Sx) : Unit × String :=
   | [.list (.atom "compile0seq" :: chs)] =>
     match C0Glue.parseSq chs with
     | some sq => ((), "ok " ++ " ".intercalate ((QM.RefSem.C0.compileSq sq).map C0Glue.showInstr))
+    | none => ((), "bad-request")
+  | [.list (.atom "compile1" :: chs)] =>
+    match C1Glue.parseSq chs with
+    | some sq => ((), "ok " ++ " ".intercalate ((QM.RefSem.C1.compileSq C1Glue.Γ₀ sq).1.map C0Glue.showInstr))
+    | none => ((), "bad-request")
+  | [.list (.atom "eval1" :: chs)] =>
+    match C1Glue.parseSq chs with
+    | some sq =>
+      match QM.RefSem.C1.evalSq C1Glue.Γ₀ [QM.VM.Val.nil] QM.VM.Val.nil sq with
+      | some (v, L) => ((), "ok " ++ C1Glue.showVal v ++ " " ++ " ".intercalate (L.map C1Glue.showVal))
+      | none => ((), "stuck")
     | none => ((), "bad-request")
   | _ => ((), "bad-request")
 
